@@ -487,7 +487,7 @@ number has not passed the stored value and the watermark is within one period of
 structure SGood (y : SSys) (U : List Nat) (n : Nat) : Prop where
   used_seq : ∀ p ∈ U, p < y.s.seq
   used_st : ∀ p ∈ U, p < y.stored
-  alive : y.s.seq + 1 < SEQ_MAX → y.s.seq ≤ y.stored ∧ y.s.next ≤ y.stored ∧ y.s.seq < y.s.next + effFreq y.f
+  alive : y.s.seq + 1 ≤ SEQ_MAX → y.s.seq ≤ y.stored ∧ y.s.next ≤ y.stored ∧ y.s.seq < y.s.next + effFreq y.f
   st_le : y.stored ≤ SEQ_MAX + 2 ^ 32
   seq_le : y.s.seq ≤ SEQ_MAX + 2 ^ 32 + n
 
@@ -526,7 +526,7 @@ theorem sstep_good {y : SSys} {U : List Nat} {n : Nat} (g : SGood y U n) (hn : n
     have hseq := g.seq_le
     have hwrap : (y.s.seq + 1) % 2 ^ 64 = y.s.seq + 1 := Nat.mod_eq_of_lt (by omega)
     simp only [sstep, protect, hwrap]
-    by_cases h1 : y.s.seq + 1 ≥ SEQ_MAX
+    by_cases h1 : y.s.seq + 1 > SEQ_MAX
     · simp only [h1, if_true, emitted, List.nil_append]
       refine ⟨⟨?_, g.used_st, ?_, g.st_le, ?_⟩, by simp⟩
       · intro p hp; have := g.used_seq p hp; dsimp only; omega
